@@ -195,10 +195,11 @@ META = {
                    "every sparsity pattern / stored-index order / explicit zeros / CSR-CSC layout, 4 ID menus (ASCII, punctuation, lengths where the "
                    "lexicographically greatest ID is short, non-ASCII), compress on/off (also proved to write the same payload).",
     'encoded': {'biom/table.py': ['to_hdf5', 'from_hdf5', 'general_formatter', 'vlen_list_of_str_formatter', 'general_parser', 'vlen_list_of_str_parser',
-                                  'nnz', '__init__'], 'biom/parse.py': ['parse_biom_table']},
+                                  'nnz', '__init__'], 'biom/parse.py': ['parse_biom_table', 'load_table', 'save_table'],
+                'biom/util.py': ['biom_open', 'is_gzip']},
     'bounds': {'quick': {'shapes': '2x2 (+3x3 / 2x3 spot configurations)', 'metadata': '6 menus', 'ids': '4 menus'},
                'thorough': {'shapes': '2x2, 2x3, 3x2 x all menus'}},
-    'outside': ['the real HDF5 library: string encodings it applies itself, NUL handling, compression filters, files on disk', 'biom_open / load_table(path) '
+    'outside': ['the real HDF5 library: string encodings it applies itself, NUL handling, compression filters, files on disk', 'the operating system under biom_open (replaced by checks/fsmodel.py) '
                 'sniffing (needs a real file)', 'ID / metadata text beyond the menus', 'bit-identity of float64 payloads through HDF5 (trusted: float64 stored exactly)'],
     'assumptions': ['h5py model contract: numeric arrays and byte strings are stored faithfully; vlen-str datasets read back as bytes, string attributes as str'],
 }
